@@ -1,0 +1,28 @@
+//go:build verif
+
+// Verification contracts for package metadata, property C17 (addition; comment-only, read by /verif/govc).
+// The etcd store writes one record {offset, metadata} per (group, topic, partition) on every commit and reads that
+// record back; the in-memory store must do the same with its two maps: a commit overwrites BOTH the offset and the
+// metadata under the same key (also with an empty metadata string), a fetch returns both from that key.
+
+package metadata
+
+//@ func (s *InMemoryStore) CommitConsumerOffset
+//@   requires s.consumerOffsets != nil && s.consumerMeta != nil
+//@   ghost gk string = ""
+//@   ghost gdone bool = false
+//@   at consumerKey#1 before assert [C17.commit_key_is_group_topic_partition] arg0 == group && arg1 == topic && arg2 == partition
+//@   at consumerKey#1 after set gk = ret0
+//@   at consumerKey#1 after set gdone = true
+//@   ensures [C17.commit_overwrites_offset_and_metadata_under_one_key] gdone ==> has(s.consumerOffsets, gk) && s.consumerOffsets[gk] == offset && has(s.consumerMeta, gk) && s.consumerMeta[gk] == metadata
+//@   ensures [C17.commit_touches_no_other_key] forall k string :: k != gk ==> has(s.consumerOffsets, k) == old(has(s.consumerOffsets, k)) && s.consumerOffsets[k] == old(s.consumerOffsets[k]) && has(s.consumerMeta, k) == old(has(s.consumerMeta, k)) && s.consumerMeta[k] == old(s.consumerMeta[k])
+
+//@ func (s *InMemoryStore) FetchConsumerOffset
+//@   requires s.consumerOffsets != nil && s.consumerMeta != nil
+//@   ghost gk string = ""
+//@   ghost gdone bool = false
+//@   at consumerKey#1 before assert [C17.fetch_key_is_group_topic_partition] arg0 == group && arg1 == topic && arg2 == partition
+//@   at consumerKey#1 after set gk = ret0
+//@   at consumerKey#1 after set gdone = true
+//@   ensures [C17.fetch_returns_the_committed_record] gdone && has(s.consumerOffsets, gk) ==> result0 == s.consumerOffsets[gk] && result1 == s.consumerMeta[gk]
+//@   ensures [C17.fetch_changes_nothing] forall k string :: has(s.consumerOffsets, k) == old(has(s.consumerOffsets, k)) && s.consumerOffsets[k] == old(s.consumerOffsets[k]) && s.consumerMeta[k] == old(s.consumerMeta[k])
